@@ -356,6 +356,7 @@ def _frame_traits(spec, formula):
         if c["flavor"] == "str":
             traits.append("str-dtype")
         if c["flavor"] == "category":
+            traits.append("category-column")
             observed = sorted({v for v in c["values"] if v is not None})
             if list(c["levels"]) != observed:
                 traits.append("category-levels-unsorted-or-unobserved")
@@ -386,8 +387,9 @@ def _classify(clause, route, output, what, traits, na, ref, res):
         who = ROUTE_GROUP[route]
     if "str-dtype" in traits:
         kind = "str-dtype"
-    elif who == "narwhals-arrow" and what in ("names", "names-order") and "category-levels-unsorted-or-unobserved" in traits:
-        kind = "dictionary-level-order"
+    elif who == "narwhals-arrow" and what in ("names", "names-order", "shape") and "category-column" in traits:
+        # the levels of a dictionary (categorical) column: order, levels without rows (also after rows were dropped)
+        kind = "dictionary-levels-lost"
     elif who == "narwhals-arrow" and what == "values" and "category-null" in traits and na == "ignore":
         kind = "dictionary-null-under-ignore"
     else:
@@ -484,7 +486,7 @@ def _agree_task(args):
 def _run_agree(ctx):
     plain = mf.small_frame_specs(ctx.seed, ctx.thorough, nulls=False)
     withnull = mf.null_frame_specs(ctx.seed, ctx.thorough)
-    nformulas = 24 if ctx.thorough else 16
+    nformulas = 24 if ctx.thorough else 12
     nparts = 2
     tasks = []
     for fi, spec in enumerate(plain):
@@ -494,7 +496,7 @@ def _run_agree(ctx):
     with ctx.bounded(
         "agree-outputs-entrypoints-materializers",
         rule="a case = (frame, formula, ensure_full_rank, na_action); each case is built through 3 outputs x (5 entry points + "
-             "narwhals on pandas + narwhals on arrow) + 2 sugar routes to narwhals (26 builds) and everything is compared with "
+             "narwhals on pandas + narwhals on arrow) + 2 sugar routes to narwhals (23 builds) and everything is compared with "
              "formulaic.model_matrix(..., output=o) (and that across outputs); non-trivial = the matrix has a non-intercept column",
         exhaustive=False,
         bound="frames: rows 1..6, 0-3 categoricals (1..4 levels; category/object/str dtype; category order not sorted, possibly "
